@@ -14,7 +14,9 @@ LEVEL = "exploration"
 RULE = ("three grammar families: (1) random grammars with the left-recursion-avoiding bias on and off; "
         "(2) prefix-group grammars; (3) targeted: a cycle X -> N1..Nk X hidden behind k=1..3 nullable "
         "symbols, generated under EVERY relative alphabetical order of the names of X and N1..Nk "
-        "((k+1)! orders, enumerated), start symbol inside or outside the cycle, dict order shuffled. "
+        "((k+1)! orders, enumerated), start symbol inside or outside the cycle, dict order shuffled; (4) the mirror "
+        "family that must be ACCEPTED: right recursion X -> N1..Nk B X behind nullable symbols and a "
+        "non-nullable B, under every relative name order of X, B, N1..Nk (30 orders). "
         "Oracle 1: the harness decides left recursion on the user's grammar by cycle search in the "
         "'can start with, behind nullable symbols' graph; constructor must raise GrammarIsRecursive iff a "
         "cycle exists, and nothing else (AssertionError is tolerated only for adjacent duplicate "
@@ -31,9 +33,9 @@ TIERS = {
     "thorough": {"shards": 16, "cases": 12000, "timeout": 3000},
 }
 FLOORS = {"quick": {"distinct_nontrivial": 2000, "left_recursive_rejected": 1500, "accepted_grammars": 2000,
-                    "hidden_cycle_orders_seen": 32, "pushes_observed": 100000},
+                    "hidden_cycle_orders_seen": 62, "pushes_observed": 100000, "right_recursion_grammars_accepted": 800},
           "thorough": {"distinct_nontrivial": 50000, "left_recursive_rejected": 40000,
-                       "accepted_grammars": 50000, "hidden_cycle_orders_seen": 32,
+                       "accepted_grammars": 50000, "hidden_cycle_orders_seen": 62, "right_recursion_grammars_accepted": 20000,
                        "pushes_observed": 3000000}}
 CEILINGS = {"quick": {"inconclusive_cases": 50}, "thorough": {"inconclusive_cases": 2000}}
 LEVEL_TEXT = ("Runtime exploration: the constructor's verdict is compared with an independent cycle search on "
@@ -50,15 +52,20 @@ TECHNIQUE = "runtime monitoring: cycle-search oracle + sys.monitoring stack-boun
 CTOR_LINE_BOUND = 500_000  # lines of the constructor's cycle search; observed maximum is reported
 
 ORDERS = [p for k in (1, 2, 3) for p in itertools.permutations(range(k + 1))]
+RR_ORDERS = [p for k in (1, 2) for p in itertools.permutations(range(k + 2))]
 
 
 def make_case(ctx, rng, i):
     cfg_id = rng.randrange(len(llmon.TOKCFGS))
     cfg = llmon.TOKCFGS[cfg_id]
     terms = rng.sample(cfg.terminals, min(len(cfg.terminals), rng.choice([2, 3, 4, 4])))
-    r = i % 4
-    if r == 0:
-        order = ORDERS[(i // 4 + ctx.shard) % len(ORDERS)]
+    r = i % 5
+    if r == 4:
+        order = RR_ORDERS[(i // 5 + ctx.shard) % len(RR_ORDERS)]
+        prods, start = gram.right_recursion_behind_nullables(rng, terms, order)
+        kind = "right-recursion:" + "".join(map(str, order))
+    elif r == 0:
+        order = ORDERS[(i // 5 + ctx.shard) % len(ORDERS)]
         prods, start = gram.hidden_cycle_grammar(rng, terms, order)
         kind = "hidden-cycle:" + "".join(map(str, order))
     elif r == 1:
@@ -66,6 +73,7 @@ def make_case(ctx, rng, i):
         kind = "random-no-bias"
     elif r == 2:
         prods, start = gram.gen_grammar(rng, terms, max_alts=rng.choice([3, 4, 6])), 'E'
+        prods = gram.shuffle_declaration_order(rng, prods)
         kind = "random"
     else:
         prods, start = gram.gen_prefix_group_grammar(rng, terms), 'E'
@@ -127,6 +135,9 @@ def run_case(ctx, mon, cfg_id, terms, prods, start, kind, inputs_spec=None, rng=
     ctx.count("accepted_grammars")
     if cycle is None and any(alt and alt[0] in nullables for alts in prods.values() for alt in alts):
         ctx.nontrivial(gsig)
+    if kind.startswith("right-recursion"):
+        ctx.nontrivial("rr-order:" + kind)
+        ctx.count("right_recursion_grammars_accepted")
     # ---- termination / bounded progress on accepted grammars (also on wrongly accepted ones)
     if inputs_spec is None:
         inputs_spec = []
@@ -176,7 +187,7 @@ def run_shard(ctx):
             rng = ctx.rng(i)
             cfg_id, terms, prods, start, kind = make_case(ctx, rng, i)
             ctx.count("family_" + kind.split(":")[0])
-            if kind.startswith("hidden-cycle"):
+            if kind.startswith(("hidden-cycle", "right-recursion")):
                 orders.add(kind)
             run_case(ctx, mon, cfg_id, terms, prods, start, kind, rng=rng)
             if i in (0, 1, 2):
